@@ -69,6 +69,10 @@ func faultPoints(t *testing.T, rep *ev.Report, shard, of int, only string) {
 	for _, k := range []int{1, 20} {
 		cases = append(cases, faults.Case{Kind: "abort-many", Proto: "h2", K: k, Val: 0})
 	}
+	// rare but legal (or cleanly refusable) HTTP/2 sequences
+	for k := range faults.H2RareNames {
+		cases = append(cases, faults.Case{Kind: "h2-rare", Proto: "h2", K: k})
+	}
 	rep.Info["fault_point_cases_total"] = len(cases)
 	for i, cs := range cases {
 		if only != "" {
